@@ -567,6 +567,109 @@ static void cmd_patch(int nt, char **t)
 	emit_dlog();
 }
 
+/* VISIT <h> <default code> <code for call 0> <code for call 1> ...
+ *   -> = <ret> <ncalls> <ptr>,<flags>,<parent ptr>,<k<hex>|i<idx>|->,<returned code>;...  */
+struct visit_sched { int n; char **codes; long deflt; int calls; };
+static int visit_fn(json_object *jso, int flags, json_object *parent, const char *key, size_t *idx, void *arg)
+{
+	struct visit_sched *vs = (struct visit_sched *)arg; long code = vs->calls < vs->n ? L(vs->codes[vs->calls]) : vs->deflt;
+	if (vs->calls) ob_putc(&out, ';');
+	ob_printf(&out, "%lx,%d,%lx,", (unsigned long)(uintptr_t)jso, flags, (unsigned long)(uintptr_t)parent);
+	if (key) { ob_putc(&out, 'k'); ob_hex(&out, key, strlen(key)); } else if (idx) ob_printf(&out, "i%zu", *idx); else ob_putc(&out, '-');
+	ob_printf(&out, ",%ld", code);
+	vs->calls++;
+	if (vs->calls > 100000) return JSON_C_VISIT_RETURN_ERROR;
+	return (int)code;
+}
+static void cmd_visit(int nt, char **t)
+{
+	struct visit_sched vs; size_t mark; int ret; char head[64];
+	vs.n = nt - 3; vs.codes = t + 3; vs.deflt = L(t[2]); vs.calls = 0;
+	ob_puts(&out, "= ");
+	mark = out.n;
+	ret = json_c_visit(H[hidx(t[1])], 0, visit_fn, &vs);
+	/* prepend ret and count: simplest is to append them at the end as a trailer */
+	snprintf(head, sizeof head, " ret=%d calls=%d", ret, vs.calls);
+	if (out.n == mark) ob_putc(&out, '-');
+	ob_puts(&out, head);
+}
+
+/* ---------------- fd I/O (C20) ----------------
+ * caps: comma-separated per-call transfer caps (cycled; 0 = uncapped); err_at: call index at which the shim fails the
+ * read/write with <errno> (-1 = never).  The descriptor is a real memfd, so what is compared is what arrived there. */
+extern void _json_c_set_last_err(const char *err_fmt, ...);
+static int parse_caps(const char *t, int *caps)
+{
+	int n = 0; const char *p = t;
+	while (*p && n < 256) { caps[n++] = (int)strtol(p, (char **)&p, 10); if (*p == ',') p++; else break; }
+	return n;
+}
+static int scratch_fd(void)
+{
+	int fd = memfd_create("vf", 0);
+	if (fd < 0) { char tmpl[] = "/dev/shm/vfXXXXXX"; fd = mkstemp(tmpl); if (fd >= 0) unlink(tmpl); }
+	return fd;
+}
+/* FDW <h> <flags> <caps> <err_at> <errno> -> = rc=<> lasterr=<0|1> calls=<> inj=<> ser=<hex> got=<hex> */
+static void cmd_fdw(int nt, char **t)
+{
+	int h = hidx(t[1]); int flags = (int)L(t[2]); int caps[256]; int nc = parse_caps(t[3], caps); int fd = scratch_fd(); int rc; const char *ser, *le; char *sercopy; size_t sl;
+	struct obuf got = {0}; char buf[8192]; ssize_t k; (void)nt;
+	ser = json_object_to_json_string_ext(H[h], flags); sl = ser ? strlen(ser) : 0; sercopy = (char *)malloc(sl + 1); memcpy(sercopy, ser ? ser : "", sl);
+	_json_c_set_last_err("%s", "");
+	vf_io_script(caps, nc, (int)L(t[4]), (int)L(t[5]));
+	rc = json_object_to_fd(fd, H[h], flags);
+	vf_io_off();
+	le = json_util_get_last_err();
+	lseek(fd, 0, SEEK_SET);
+	while ((k = read(fd, buf, sizeof buf)) > 0) { ob_need(&got, (size_t)k); memcpy(got.b + got.n, buf, (size_t)k); got.n += (size_t)k; }
+	close(fd);
+	ob_printf(&out, "= rc=%d lasterr=%d calls=%ld inj=%ld ser=x", rc, le != NULL, vf_io_calls, vf_io_injected);
+	ob_hex(&out, sercopy, sl); ob_puts(&out, " got=x"); ob_hex(&out, got.b ? got.b : "", got.n);
+	free(got.b); free(sercopy);
+}
+/* FDR <depth|-1> <caps> <err_at> <errno> <hex> -> = fd=<nonnull> lasterr=<> calls=<> inj=<> fdd=<dump> | mem=<err> <dump> */
+static void cmd_fdr(int nt, char **t)
+{
+	int depth = (int)L(t[1]); int caps[256]; int nc = parse_caps(t[2], caps); size_t n; unsigned char *b = unhex(t[5], &n); int fd = scratch_fd();
+	struct json_object *o, *m; const char *le; struct json_tokener *tok; char *ex; ssize_t w; size_t off = 0; (void)nt;
+	while (off < n && (w = write(fd, b + off, n - off)) > 0) off += (size_t)w;
+	lseek(fd, 0, SEEK_SET);
+	_json_c_set_last_err("%s", "");
+	vf_io_script(caps, nc, (int)L(t[3]), (int)L(t[4]));
+	o = depth == -1 ? json_object_from_fd(fd) : json_object_from_fd_ex(fd, depth);
+	vf_io_off();
+	le = json_util_get_last_err();
+	close(fd);
+	ob_printf(&out, "= fd=%d lasterr=%d calls=%ld inj=%ld fdd=", o != NULL, le != NULL, vf_io_calls, vf_io_injected);
+	{ struct obuf tmp = {0}; if (o) dump_node(&tmp, o, 0); ob_printf(&out, "%016" PRIx64, o ? (uint64_t)tmp.n * 1000003u + crc32_buf((unsigned char *)tmp.b, tmp.n) : 0); free(tmp.b); }
+	tok = depth == -1 ? json_tokener_new() : json_tokener_new_ex(depth);
+	if (!tok) { ob_puts(&out, " | mem=notok 0"); json_object_put(o); free(b); return; }
+	ex = exact_copy(b, n);
+	m = json_tokener_parse_ex(tok, ex, (int)n);
+	ob_printf(&out, " | mem=%d ", (int)json_tokener_get_error(tok));
+	{ struct obuf tmp = {0}; if (m) dump_node(&tmp, m, 0); ob_printf(&out, "%016" PRIx64 " eq=%d", m ? (uint64_t)tmp.n * 1000003u + crc32_buf((unsigned char *)tmp.b, tmp.n) : 0, json_object_equal(o, m)); free(tmp.b); }
+	json_object_put(m); json_object_put(o); json_tokener_free(tok); free(ex); free(b);
+}
+/* FDF <pathhex> <mode 0 from_file nonexistent | 1 to_file_ext+from_file round trip of handle 0 with flags> [flags] */
+static void cmd_fdf(int nt, char **t)
+{
+	char *path = keyarg(t[1]); int mode = (int)L(t[2]); long o0 = vf_open_calls, c0 = vf_close_calls; const char *le;
+	_json_c_set_last_err("%s", "");
+	if (mode == 0) {
+		struct json_object *o = json_object_from_file(path);
+		le = json_util_get_last_err();
+		ob_printf(&out, "= obj=%d lasterr=%d opens=%ld closes=%ld", o != NULL, le != NULL, vf_open_calls - o0, vf_close_calls - c0);
+		json_object_put(o);
+	} else {
+		int flags = nt > 3 ? (int)L(t[3]) : 0; int rc = json_object_to_file_ext(path, H[0], flags); struct json_object *o = json_object_from_file(path);
+		le = json_util_get_last_err();
+		ob_printf(&out, "= rc=%d obj=%d eq=%d lasterr=%d opens=%ld closes=%ld", rc, o != NULL, json_object_equal(o, H[0]), le != NULL, vf_open_calls - o0, vf_close_calls - c0);
+		json_object_put(o); unlink(path);
+	}
+	free(path);
+}
+
 /* ---- strings (C11) ---- */
 /* SSTR <h> <hex> [lenoverride]   json_object_set_string_len from an exact-size block;  SSTRZ: json_object_set_string */
 static void cmd_sstr(int nt, char **t)
@@ -671,6 +774,10 @@ static void dispatch(int nt, char **t)
 	else if (!strcmp(c, "PSET")) cmd_pset(nt, t);
 	else if (!strcmp(c, "PGET")) cmd_pget(nt, t);
 	else if (!strcmp(c, "PATCH")) cmd_patch(nt, t);
+	else if (!strcmp(c, "VISIT")) cmd_visit(nt, t);
+	else if (!strcmp(c, "FDW")) cmd_fdw(nt, t);
+	else if (!strcmp(c, "FDR")) cmd_fdr(nt, t);
+	else if (!strcmp(c, "FDF")) cmd_fdf(nt, t);
 	else if (!strcmp(c, "PSETF")) cmd_psetf(nt, t);
 	else if (!strcmp(c, "HASHFN")) cmd_hashfn(nt, t);
 	else if (!strcmp(c, "HASH")) cmd_hash(nt, t);
